@@ -1023,10 +1023,13 @@ pub fn run_cell(u: &Unit, env: &Env, cs: &serde_avro_fast::Schema, p: &Pres, slo
 				}
 				Verdict::Valid(v, n) => viol("trailing-bytes", format!("Ok([{}]): the encoding of {v:?} ends after {n} bytes", hex(&bytes))),
 				Verdict::Invalid(m) => viol("undecodable", format!("Ok([{}]), which is not a valid encoding under the schema: {m}", hex(&bytes))),
-				Verdict::Unspecified(m) => {
+				Verdict::Unspecified(m) if m.starts_with("model refuses") => {
+					// a limit of the reference model, not a statement about the bytes
 					cover.count("ok_model_unspecified", 1);
-					let _ = m;
 				}
+				// What a *decoder* may do with an over-long varint or an int beyond 32 bits is left open
+				// by the specification; an *encoder* must not produce one.
+				Verdict::Unspecified(m) => viol("not-spec-exact", format!("Ok([{}]), which is not the specification's encoding of any value of the schema: {m}", hex(&bytes))),
 			}
 		}
 	}
